@@ -619,6 +619,7 @@ func limitCases(r *rand.Rand, sum *tl.Summary) {
 		}
 		res := make(chan got, 2)
 		go func() {
+			defer c2.Close() // never leave the writer blocked on the pipe
 			for i := 0; i < 2; i++ {
 				code, data, _, err := cb.Read()
 				res <- got{code, append([]byte{}, data...), err}
